@@ -37,14 +37,26 @@ def _pkg():
     return _PKG
 
 
+_extra_codes = []
+
+
+def register_modules(mods):
+    """Code objects of a further import of the library (league B after a process restart)."""
+    _extra_codes[:] = _walk_modules(mods)  # only the latest restart of league B is alive
+
+
 def library_code_objects():
     """Every code object defined in an openskill module (functions, methods, lambdas, nested)."""
     global _codes
-    if _codes is not None:
-        return _codes
-    import types
+    if _codes is None:
+        from core import library_modules
 
-    from core import library_modules
+        _codes = _walk_modules(library_modules())
+    return _codes + _extra_codes
+
+
+def _walk_modules(mods):
+    import types
 
     seen = set()
     out = []
@@ -59,7 +71,7 @@ def library_code_objects():
             if isinstance(c, types.CodeType):
                 walk(c)
 
-    for m in library_modules():
+    for m in mods:
         for v in list(vars(m).values()):
             if isinstance(v, types.FunctionType):
                 walk(v.__code__)
@@ -68,7 +80,6 @@ def library_code_objects():
                     f = getattr(cv, "__func__", cv)
                     if isinstance(f, types.FunctionType):
                         walk(f.__code__)
-    _codes = out
     return out
 
 
